@@ -529,6 +529,7 @@ func checkTrackReuseH(rep *Reporter, r *gen.Rng) {
 		newF  func() field.Field
 		full  string
 		parts []string
+		alts  []string // further first inputs
 	}
 	exp := func() string { return fmt.Sprintf("%02d%02d", 20+r.Intn(40), 1+r.Intn(12)) }
 	spec := func() *field.Spec {
@@ -538,17 +539,27 @@ func checkTrackReuseH(rep *Reporter, r *gen.Rng) {
 	tracks := []mk{
 		{"Track2", func() field.Field { return field.NewTrack2(spec()) },
 			pan + "=" + exp() + "201" + string(r.From([]byte("0123456789"), 1+r.Intn(8))),
-			[]string{"", pan + "D" + exp() + "101" + "9", "4000=" + exp() + "123" + " 7 "}},
+			[]string{"", pan + "D" + exp() + "101" + "9", "4000=" + exp() + "123" + " 7 "}, nil},
 		{"Track1", func() field.Field { return field.NewTrack1(spec()) },
 			"B" + pan + "^DOE/JOHN^" + exp() + "201" + "123456",
-			[]string{"", "B" + pan + "^A/B^^^" + "9", "B4000^SMITH^" + exp() + "101" + "1"}},
+			[]string{"", "B" + pan + "^A/B^^^" + "9", "B4000^SMITH^" + exp() + "101" + "1"},
+			// a name padded with blanks to the full 26 characters (what a sender with FixedLength writes), and one of 26 letters
+			[]string{"B" + pan + "^" + fmt.Sprintf("%-26s", "DOE/JOHN") + "^" + exp() + "201" + "1", "B4000^" + strings.Repeat("N", 26) + "^" + exp() + "101" + "2"}},
 		{"Track3", func() field.Field { return field.NewTrack3(spec()) },
 			"01" + pan + "=" + "1234567",
-			[]string{"", "99" + "4000" + "=" + "1"}},
+			[]string{"", "99" + "4000" + "=" + "1"}, nil},
 	}
 	for _, tk := range tracks {
-		for _, second := range tk.parts {
-			w1 := []byte(fmt.Sprintf("%02d%s", len(tk.full), tk.full))
+		firsts := append([]string{tk.full}, tk.alts...)
+		for k, second := range append(append([]string{}, tk.parts...), tk.parts...) {
+			first := firsts[(k/len(tk.parts))%len(firsts)]
+			if k >= len(tk.parts) && len(firsts) == 1 {
+				break
+			}
+			if k >= len(tk.parts) {
+				first = firsts[1+r.Intn(len(firsts)-1)]
+			}
+			w1 := []byte(fmt.Sprintf("%02d%s", len(first), first))
 			w2 := []byte(fmt.Sprintf("%02d%s", len(second), second))
 			line := "TK " + tk.name + " " + impl.Hex(w1) + " " + impl.Hex(w2)
 			safely(rep, line, func() {
